@@ -275,6 +275,9 @@ func WriteEvidence(e *Evidence) {
 	e.Seed = Seed()
 	e.WallS = time.Since(Start).Seconds()
 	dir := filepath.Join(*Root, "evidence")
+	if d := os.Getenv("VERIF_EVIDENCE_DIR"); d != "" {
+		dir = d // runs against a scratch copy of the library keep their evidence apart
+	}
 	os.MkdirAll(dir, 0o755)
 	data, _ := json.MarshalIndent(e, "", " ")
 	if err := os.WriteFile(filepath.Join(dir, e.PropertyID+".json"), append(data, '\n'), 0o644); err != nil {
